@@ -154,6 +154,8 @@ func runC05(c *Ctx) {
 		cfg2.Depth = 3
 	}
 	enumerate(c, cfg2)
+	// the convenience layer (rbac_api.go, rbac_api_with_domains.go) against Model/RbacApi.lean
+	rbacApiFamily(c, "")
 
 	// a reload that the role manager rejects at its j-th link (implementation only: a failing role
 	// manager is not part of the protocol): afterwards the graph must still mirror the listed rules
